@@ -374,8 +374,8 @@ def run(repo, tier):
             raise AnalysisError('encoders bound in INSTRUCTIONS are not reached from assemble(): {}'.format(sorted(enc - it.reached)[:5]))
     rep.floor('functions reached from assemble', 100)
     rep.floor('exception origins reached', 8)
-    rep.floor('conversions seen', 10)
-    rep.floor('AssemblerError constructions', 15)
+    rep.floor('conversions seen', 5)
+    rep.floor('AssemblerError constructions', 5)
     rep.floor('Line-holding attribute stores checked', 60)
     rep.floor('mnemonic encoders', 20)
     rep.floor('percent of reached statements interpreted', 90)
